@@ -12,6 +12,9 @@ CHECKS = {
     'C02': dict(engine='E1-kani', technique='bounded model checking (Kani/CBMC, CaDiCaL) of the generated eq/ne against a config-derived oracle',
                 text='For every derive request in the grammar, CBMC decides (a == b) == field-wise oracle and (a != b) == !oracle for all pairs of values incl. all variant pairs, and reflexivity/symmetry/transitivity for all triples with lawful field comparisons; counterexamples are replayed natively before being reported.',
                 ref='DESIGN.md §4 C02'),
+    'C03': dict(engine='E1-kani', technique='bounded model checking (Kani/CBMC, CaDiCaL) of the generated cmp/partial_cmp against a rank-sorted lexicographic oracle',
+                text='For every derive request in the grammar (field lists over plain/NaN-like/ignored/method x every permutation of explicit ranks incl. isize::MIN/MAX x struct/enum, named/tuple x four trait sets) CBMC decides partial_cmp == oracle, cmp == oracle and partial_cmp == Some(cmp) for all value pairs, and the total-order laws for all triples with lawful comparisons.',
+                ref='DESIGN.md §4 C03'),
     'C04': dict(engine='E1-kani', technique='bounded model checking (Kani/CBMC, CaDiCaL, pointer checks on) of the generated enum cmp/partial_cmp against a declared-discriminant oracle',
                 text='For every enum definition in the grammar (payload types incl. niche/zero-sized, repr, explicit discriminants incl. width boundaries) CBMC decides that cmp/partial_cmp equal the declared-discriminant order for different variants and the payload order for equal variants, for all value pairs and all neighbour bytes, with memory-safety checks on.',
                 ref='DESIGN.md §4 C04'),
@@ -23,7 +26,7 @@ NOT_APPLICABLE = {
     'C16': "the only varying input is std's per-process RandomState seed inside HashMap iteration; it cannot be made symbolic without executing the macro symbolically, which is unavailable here",
 }
 
-PENDING = {k: 'check not built yet at this commit (planned, see DESIGN.md §0); not claimed until it is' for k in ['C03','C05','C06','C07','C08','C09','C10','C11','C12','C14','C15','C17','C18','C19','C20']}
+PENDING = {k: 'check not built yet at this commit (planned, see DESIGN.md §0); not claimed until it is' for k in ['C05','C06','C07','C08','C09','C10','C11','C12','C14','C15','C17','C18','C19','C20']}
 
 
 def build():
